@@ -224,9 +224,12 @@ def validateBy (name : Option String) (s : GObj) (a : Atom) : Option Err :=
       if n ≤ 0 then some .valueError
       else if s.linked && s.taken.contains n then some .numberConflict
       else Option.none
-  | some "_enforce_positive_radius" | some "_ensure_positive" =>
+  | some "_enforce_positive_radius" =>
     -- `value < 0`: `None < 0` is a TypeError
     if a == .none then some .typeError else if a.isNeg then some .valueError else Option.none
+  | some "_ensure_positive" =>
+    -- volume.py (repaired): `value is not None and value < 0` — `None` unsets the volume
+    if a == .none then Option.none else if a.isNeg then some .valueError else Option.none
   | some "_enforce_positive" =>
     match a.asRat? with
     | some q => if q ≤ 0 then some .valueError else Option.none
